@@ -111,13 +111,15 @@ type exec struct {
 	hashApps []*hashApp // applications of the injective Hash abstraction
 
 	// scheduler
-	gors    []*gor
-	cur     *gor
-	killed  bool
-	preempt int // remaining preemptions (interleaving mode)
-	mstates map[*value]*mstate
-	fresh   int
-	uidBytes map[*Term][]*Term
+	gors      []*gor
+	cur       *gor
+	killed    bool
+	preempt   int // remaining preemptions (interleaving mode)
+	mstates   map[*value]*mstate
+	fresh     int
+	uidBytes  map[*Term][]*Term
+	symClock  bool
+	lastClock *Term
 
 	globals map[*ssa.Global]*value
 	inited  map[*ssa.Package]bool
@@ -127,7 +129,7 @@ type exec struct {
 	known         map[*Term]bool
 	ubounds       map[*Term]uint64 // unsigned upper bounds of input variables (from assumptions)
 	lbounds       map[*Term]uint64
-	fromInts      map[*Term]*Term // integer term -> its decimal text term
+	fromInts      map[*Term]*Term     // integer term -> its decimal text term
 	blobOf        map[*Term]*jsonBlob // string(text of a JSON value) -> the value
 	leaseExpiries int
 	fallback      func() *Solver
@@ -136,14 +138,14 @@ type exec struct {
 	local         *localCtx
 	unknownBranch bool
 	panicSite     string
-	pendingAbort *abort
-	exitAck      chan struct{}
-	syncMaps     map[*value]*gmap
-	mapHashes    map[*value]*[]byte
-	mongoSt      *mongoState
-	hashAbstract bool
-	uidCounter   int
-	preemptFns   map[string]bool
+	pendingAbort  *abort
+	exitAck       chan struct{}
+	syncMaps      map[*value]*gmap
+	mapHashes     map[*value]*[]byte
+	mongoSt       *mongoState
+	hashAbstract  bool
+	uidCounter    int
+	preemptFns    map[string]bool
 
 	mapPermute map[string]bool
 }
